@@ -19,6 +19,7 @@ class C16(Monitor):
         self.every = int(ctx.opts.get("c16_keep_every", 1))
         self.twice_every = int(ctx.opts.get("c16_twice_every", 10))
         self.real_apply = hooks.real_apply_instructions()
+        self.stepped: List[Tuple[int, Any, Any, str]] = []  # (step, state, step function with its generators, fingerprint of the result)
 
     def _recheck(self, ctx, items, when):
         for k, s, f in items:
@@ -44,12 +45,34 @@ class C16(Monitor):
         n_log = len(ctx.gen_log)
         saved_rec = {k: list(v) for k, v in hooks.REC.events.items()}
         try:
-            a, _ = rp.u.step_update.update(S, env)
-            b, _ = rp.u.step_update.update(S, env)
+            su = rp.u.step_update
+            a, _ = su.update(S, env)
+            fa = fp_state(a, ids=False)
+            if ctx.opts.get("c16_branch", True):
+                # what a co-simulation client does with saved states: go back to an earlier one and step it again, then try
+                # a what-if on a modified copy of this one (same clock value) - and only then step this one a second time
+                if self.stepped:
+                    k0, S0, su0, f_first = self.rnd.choice(self.stepped)
+                    r0, _ = su0.update(S0, env)
+                    ctx.count("c16_earlier_states_stepped_again")
+                    if fp_state(r0, ids=False) != f_first:
+                        ctx.violate("C16", "stepping-again-later-differs", f"the state saved after step {k0}, stepped again after step {ctx.k}, gave a different result than the first time", saved_step=k0)
+                S2, what = self._what_if(ctx, S)
+                if S2 is not None:
+                    try:
+                        su.update(S2, env)
+                        ctx.count("c16_what_if_branches")
+                        ctx.seen("c16_what_if_kinds", what)
+                    except Exception:
+                        ctx.count("c16_what_if_branches_that_raised")
+            b, _ = su.update(S, env)
             ctx.count("c16_step_twice")
-            fa, fb = fp_state(a, ids=False), fp_state(b, ids=False)
+            fb = fp_state(b, ids=False)
             if fa != fb:
                 ctx.violate("C16", "stepping-twice-differs", f"stepping the state saved after step {ctx.k} twice gave two different results", diff=diff_states(a, b, ids=False))
+            self.stepped.append((ctx.k, S, su, fa))
+            if len(self.stepped) > 10:
+                self.stepped.pop(self.rnd.randrange(len(self.stepped)))
             if fp_state(S, ids=True) != f0:
                 ctx.violate("C16", "stepped-state-changed", f"stepping from the state saved after step {ctx.k} altered it")
             # apply_instructions twice on the batch captured in this step
@@ -69,6 +92,44 @@ class C16(Monitor):
             del ctx.gen_log[n_log:]
             hooks.REC.events.clear()
             hooks.REC.events.update(saved_rec)
+
+    def _what_if(self, ctx, S):
+        """a copy of S at the same clock value in which one station is closed (removed if nobody uses it, else made private)
+        or is fully occupied - built with the public state operations; S itself is left alone."""
+        from nrel.hive.state.simulation_state import simulation_state_ops as sso
+        from returns.result import Failure
+
+        sids = sorted(S.stations.keys())
+        if not sids:
+            return None, None
+        # prefer a station that a vehicle was just sent to or that is nearest to a vehicle low on energy: that is the
+        # station the built-in search would pick again
+        targeted = sorted({getattr(v.vehicle_state, "station_id", None) for v in S.vehicles.values() if type(v.vehicle_state).__name__ == "DispatchStation"} - {None})
+        sid = self.rnd.choice(targeted) if targeted and self.rnd.random() < 0.6 else self.rnd.choice(sids)
+        st = S.stations[sid]
+        used = any(getattr(v.vehicle_state, "station_id", None) == sid for v in S.vehicles.values()) or any(b.station_id == sid for b in S.bases.values())
+        kind = self.rnd.choice(["close", "close", "occupy"])
+        try:
+            if kind == "close" and not used:
+                res = sso.remove_station_safe(S, sid)
+                what = "station-removed"
+            elif kind == "close":
+                res = sso.modify_station_safe(S, st.set_membership(("what_if_closed",)))
+                what = "station-made-private"
+            else:
+                full = st
+                for cid in sorted(st.state.keys()):
+                    for _ in range(st.state[cid].available_chargers):
+                        err, nxt = full.checkout_charger(cid)
+                        if err is None and nxt is not None:
+                            full = nxt
+                res = sso.modify_station_safe(S, full)
+                what = "station-fully-occupied"
+        except Exception:
+            return None, None
+        if isinstance(res, Failure):
+            return None, None
+        return res.unwrap(), what
 
     def finish(self, ctx):
         self._recheck(ctx, self.kept, "at the end of the run")
